@@ -47,6 +47,9 @@ def install(eng: Any) -> None:  # noqa: C901
                 return T(INT, f"(py.int_val {v.sx})")
         if v is None:
             raise_("TypeError")
+        if getattr(e, "strict_partial_ops", False):
+            # (additive, vc.pystrops) totality clauses: the ValueError / TypeError outcome would be lost
+            raise OutsideSubset("int() of unmodelled value may raise")
         return Opaque("int() of unmodelled value")
 
     def py_str(e: Any, v: Any = "") -> Any:
